@@ -281,7 +281,21 @@ func (r *runner) finish() {
 		v := W([]byte(a.text))
 		again := (v.st == wfOK && !res.ok) || (res.ok && (v.st == wfIll || len(valueBreaks(res.msg)) > 0)) || res.panicked != nil
 		if !again {
-			c.Infra("violation %q did not reproduce from its recorded input %s", s, clip(a.text))
+			// the admission of a text is a function of the text (and so is W): a verdict that flips
+			// between two evaluations of the same bytes is itself a defect of the code under test
+			// (state carried over, or an order it should not depend on, e.g. map iteration). Evaluate
+			// it a few more times to show both verdicts.
+			okN, rejN := 0, 0
+			for i := 0; i < 64; i++ {
+				if admit([]byte(a.text)).ok {
+					okN++
+				} else {
+					rejN++
+				}
+			}
+			c.Violate("C11: the verdict on one and the same text is not deterministic",
+				fmt.Sprintf("first reported as %q; of 64 further evaluations of %s, %d admitted and %d rejected it", s, clip(a.text), okN, rejN), map[string]any{"text": a.text})
+			continue
 		}
 		c.Violate(s, a.detail, map[string]any{"text": a.text})
 		for i := 1; i < a.count; i++ {
